@@ -1757,12 +1757,17 @@ func (t *Tree) Delete() {
 //   - Length
 //   - Support
 //   - id
+//   - comments
 //   - bitset (if not nil)
 func (t *Tree) CopyEdge(e *Edge, copy *Edge) {
 	copy.length = e.length
 	copy.support = e.support
 	copy.pvalue = e.pvalue
 	copy.id = e.id
+	copy.comment = make([]string, len(e.comment))
+	for i, c := range e.comment {
+		copy.comment[i] = c
+	}
 	if e.bitset != nil {
 		copy.bitset = e.bitset.Clone()
 	}
